@@ -9,6 +9,7 @@ import (
 
 	"github.com/mithrandie/csvq/lib/option"
 	"github.com/mithrandie/csvq/lib/value"
+	"github.com/mithrandie/csvq/lib/vhook"
 
 	"github.com/mithrandie/ternary"
 )
@@ -116,12 +117,18 @@ var comparisonKeysBufPool = &sync.Pool{
 }
 
 func GetComparisonKeysBuf() *bytes.Buffer {
+	if v := vhook.PoolGet("keybuf"); v != nil {
+		return v.(*bytes.Buffer)
+	}
 	buf := comparisonKeysBufPool.Get().(*bytes.Buffer)
 	return buf
 }
 
 func PutComparisonkeysBuf(buf *bytes.Buffer) {
 	buf.Reset()
+	if vhook.PoolPut("keybuf", buf) {
+		return
+	}
 	comparisonKeysBufPool.Put(buf)
 }
 
